@@ -1,4 +1,5 @@
 import AM.Proofs.ConcLemmas
+import AM.Gen.Facts
 /-! # C03 — operations bracketed by one mutex are atomic, for every schedule
 
 For EVERY schedule (an arbitrary list of thread indices, including indices of blocked, finished
@@ -178,5 +179,15 @@ theorem health_snapshot (progs : List (List (Op HS Unit)))
       · exact hsP r h
       · exact ⟨s.1, by simpa using h⟩
   · intro r hr; cases hr
+
+/-! ### the discipline the theorems assume, read off the current source
+
+`tools/extract` regenerates `AM.Gen.trackerLocked` on every run: for each exported method of the
+session tracker, whether its body begins by taking the tracker mutex and releases it with a
+deferred unlock (only deferred calls may come before). `serialisable` speaks about operations
+bracketed by one mutex; this obligation re-checks that the four operations of the code as it is
+now are so bracketed. The controlled-scheduler runs observe the same thing dynamically. -/
+theorem gen_tracker_operations_locked :
+    AM.Gen.trackerLocked.length = 4 ∧ AM.Gen.trackerLocked.all (·.2) = true := by decide
 
 end AM.C03
